@@ -30,6 +30,21 @@ CHECKS = {
         technique='CrossHair (z3) symbolic execution of the generated code on opaque (non-truth-testable) wrapped inputs with an unwrapping operator backend; z3 searches for an input reaching a surviving native construct',
         text='Inputs are wrapped in T (bool(T) raises); only overloadable operators unwrap. For every enumerated program and all inputs within the bounds, the converted function never truth-tests a traced value natively, never enters a user callee outside a converted_call dispatch, and returns the original result.',
         note='Trusted: T wrapper semantics; a surviving native construct is only observable if its test depends on x, b or list elements (generated conditions do); the loop bound n stays a plain int (CrossHair range model).'),
+    'C14': dict(
+        level='exploration', engine='xh-diff', design='DESIGN.md §2 C14',
+        technique='CrossHair (z3) symbolic execution of py_builtins.overload_of(b) against the builtin b, one harness per call shape, symbolic argument values; plus differential execution of converted programs calling eval/locals/globals/super()',
+        text='For each substituted builtin and each call shape Python accepts (positional / documented keywords / optional parameters present or absent) z3 decides equal outcome (value, NaN-aware; exception type; for lazy results equal items and equal laziness measured with a counting iterable) for all int/float/bool values, str of length<=2, int lists of length<=4.',
+        note='Bounds: str len<=2 (int/float parsing is slow in z3; inconclusive harnesses are reported, not claimed), lists<=4, range args within +-5. Trusted: CrossHair float/str models.'),
+    'C16': dict(
+        level='exploration', engine='xh-diff', design='DESIGN.md §2 C16',
+        technique='CrossHair (z3) on one inductive step of each real status wrapper from an arbitrary symbolic thread-local stack; CrossHair differential on converted programs with probes; thread isolation by z3 BMC over schedules (E3)',
+        text='Inductive step: from an arbitrary valid stack (depth 1..4, arbitrary statuses) one real wrapper (ControlStatusCtx block, FunctionScope, with_function_scope, do_not_convert, call_with_unspecified_conversion_status, convert().wrapper, internal_convert) is entered and left around a body that returns or raises: the stack is element-wise identical afterwards and the status inside is as promised. Generated code: status identity before/after converted calls whose callees raise at symbolic points.',
+        note='STUB: converted_call replaced by a direct call inside convert()/internal_convert() harnesses. Induction hypothesis: callee leaves the stack as found.'),
+    'C20': dict(
+        level='exploration', engine='xh-diff', design='DESIGN.md §2 C20',
+        technique='CrossHair (z3) drives an exhaustive case split over 3 flags x 7 feature bits x spelling; the real ConversionOptions code runs natively per case (solver-exhausted complete enumeration)',
+        text='All 1024 option values x 5 spellings: to_ast/unparse/eval round trip gives an equal value with equal hash; pairs differing in exactly one field/feature compare unequal, identical ones equal with equal hash; call_options and uses() as documented; ag__.STD shortcut exactly for the standard options.',
+        note='Finite space, exhaustive=true. The solver only owns the case split; stated as such.'),
 }
 
 NOT_APPLICABLE = {
